@@ -329,6 +329,12 @@ func encodeReq(rq request, t *rxTab) string {
 	}
 	p = append(p, "dx", strconv.Itoa(len(drows)/2))
 	p = append(p, drows...)
+	// the pattern texts: the driver parses the ones inside the reference regex subset (Model/RouteRegex.lean) and
+	// evaluates the reference matcher on every row of the truth table
+	p = append(p, "pt", strconv.Itoa(len(t.pats)))
+	for i, pat := range t.pats {
+		p = append(p, strconv.Itoa(i+1), tok(pat))
+	}
 	return strings.Join(p, " ")
 }
 
@@ -494,6 +500,9 @@ func emit(c *hx.Ctx, kind string, vhs []vhost, b built, rq request) {
 	rs := encodeReq(rq, t)
 	impl := observe(b, rq)
 	c.Emit("C04", kind+" "+cs+" "+rs, impl)
+	for _, pat := range t.pats {
+		c.Count("pattern=" + c04rPatternClass(pat))
+	}
 	f := strings.Fields(impl)
 	switch {
 	case f[0] != "ok":
@@ -570,8 +579,9 @@ func genDomain(r *hx.Rng) string {
 
 var prefixes = []string{"/", "/a", "/a/b", "/A", "/b"}
 var paths = []string{"/a", "/a/b", "/A/B", "/", "/b"}
-var pathRegexes = []string{"^/a.*", "/b$", "^/[ab]+/c$", ".*", "^$", "b"}
-var hdrRegexes = []string{"^v[12]$", "v.*", "^$", ".*"}
+var pathRegexes = []string{"^/a.*", "/b$", "^/[ab]+/c$", ".*", "^$", "b", "/a/", "a/b", "/b", "^/a$", "/(a|b)/c", "/ab?/c", "^/a/[^/]+$"}
+var hdrRegexes = []string{"^v[12]$", "v.*", "^$", ".*", "v1", "v", "1", "^v1", "v2$", "v1|v3", "GET", "s1", "s", "^(s1|s2)$", "b"}
+var varRegexes = []string{"^/a", "^G", "q=", ".*", "^$", "/a", "a/b", "/b", "GET", "ET", "q=1", "http", "a.cc", "cc", "(GET|POST)", "^/a/b$", "P?OST", "ht+ps?$", "[a-c]+"}
 
 // configured header names: lower case, mixed case, all upper case, the RPC key in both cases, a pseudo header
 var cfgHdrNames = []string{"k1", "k1", "k2", "K1", "Service-Name", "Service-Name", "service-name", "SERVICE-NAME", "X-Tag", ":authority"}
@@ -651,9 +661,9 @@ func genRule(c *hx.Ctx, r *hx.Rng) rule {
 			v := varM{name: r.PickS(varNames)}
 			switch r.Intn(4) {
 			case 0:
-				v.regex = r.PickS([]string{"^/a", "^G", "q=", ".*", "^$"})
+				v.regex = r.PickS(varRegexes)
 			case 1:
-				v.regex = r.PickS([]string{"^/a", "T$"})
+				v.regex = r.PickS([]string{"^/a", "T$", "GE", "GET", "/a"})
 				v.value = "GET" // regex wins over value
 			case 2:
 				v.value = r.PickS([]string{"/a", "GET", "POST", "q=1", "http", "a.cc"})
@@ -694,7 +704,7 @@ func genRule(c *hx.Ctx, r *hx.Rng) rule {
 		case 1:
 			x.hdrs = []hdrM{{r.PickS([]string{"service", "service", "Service"}), r.PickS([]string{"s1", "s2", ".*", ""}), false}}
 		case 2:
-			x.hdrs = []hdrM{{r.PickS([]string{"service", "service", "SERVICE"}), r.PickS([]string{"^s[12]$", ".*", "s.*"}), true}}
+			x.hdrs = []hdrM{{r.PickS([]string{"service", "service", "SERVICE"}), r.PickS([]string{"^s[12]$", ".*", "s.*", "s1", "s", "b", "^s1", "s1|s2"}), true}}
 		default:
 			x.hdrs = genHdrs(r, false)
 		}
@@ -862,8 +872,8 @@ func genRequest(c *hx.Ctx, r *hx.Rng, vhs []vhost) request {
 		}
 		rq.pseudo = [3]string{get(types.VarHost, r.PickS([]string{"v1", "a.cc", ""})), get(types.VarPath, "/a"), get(types.VarMethod, r.PickS([]string{"GET", "v1"}))}
 	}
-	hvals := []string{"v1", "v2", "", "v3", "v1", "v2", "^$", "^v[12]$"} // now and then the text of a configured pattern itself
-	svals := []string{"s1", "s2", "", "abc", ".*"}
+	hvals := []string{"v1", "v2", "", "v3", "v1", "v2", "^$", "^v[12]$", "xv1", "v1x", "xv1x", "GET", "s1"} // now and then the text of a configured pattern itself
+	svals := []string{"s1", "s2", "", "abc", ".*", "xs1", "s1x", "xs1x"}
 	vals := func(n string) []string {
 		if strings.EqualFold(n, "service") {
 			return svals
@@ -1220,11 +1230,13 @@ func Run(c *hx.Ctx) {
 		enumerateRules(c, 2)
 		enumerateGrammar(c, 3, 2)
 		enumerateHeaderNames(c, false)
+		c04rEnumerateRegex(c, false)
 	} else if c.Seed%1000 == 0 {
 		enumerate(c, 4)
 		enumerateRules(c, 3)
 		enumerateGrammar(c, 5, 4)
 		enumerateHeaderNames(c, true)
+		c04rEnumerateRegex(c, true)
 	}
 	nCfg := c.N(450, 12000)
 	for i := 0; i < nCfg; i++ {
